@@ -4,6 +4,31 @@ import vcheck
 from vcheck import ToolError, log
 
 
+def aj_text(v):
+    """Plain JSON text of an AJ value (for reports)."""
+    if v is None:
+        return "?"
+    t = v.get("t")
+    if t == "z":
+        return "null"
+    if t == "b":
+        return "true" if v["v"] else "false"
+    if t == "s":
+        return json.dumps("".join(chr(c) for c in v["v"]), ensure_ascii=False)
+    if t == "n":
+        x = v.get("x", [-1])
+        if x != [-1]:
+            return "".join(chr(c) for c in x)
+        m = sum(l << (15 * i) for i, l in enumerate(v["m"]))
+        val = m * (2.0 ** v["e"]) if v["k"] == "f" else m
+        return ("-" if v["s"] else "") + repr(val)
+    if t == "a":
+        return "[" + ",".join(aj_text(x) for x in v["v"]) + "]"
+    if t == "o":
+        return "{" + ",".join(json.dumps("".join(chr(c) for c in kv[0]), ensure_ascii=False) + ":" + aj_text(kv[1]) for kv in v["v"]) + "}"
+    return "?"
+
+
 class Ctx:
     def __init__(self, pid, tier, seed, wd):
         self.pid, self.tier, self.seed, self.wd = pid, tier, seed, wd
@@ -85,6 +110,75 @@ class Ctx:
                             self.nontrivial.add(hashlib.md5((json.dumps(c["rule"], sort_keys=True) + json.dumps(c["data"], sort_keys=True) + json.dumps(c.get("fn", ""))).encode()).digest())
             log("  replay %s [%s]: %d cases, %d agree, %d mismatch, %d crash, %d hang" % (
                 os.path.basename(cases), summary["profile"], summary["cases"], summary["matched"], summary["mismatched"], summary["crashed"], summary["hung"]))
+
+    # ---- direction B: hook-event streams validated by TLC against Machine (spec/tv/TV_Events.tla)
+    def validate_events(self, events_path, source, sc=None, max_rejects=25):
+        """Every call's event stream must be a behaviour of the machine. A rejected call is recorded as a
+        violation, removed from the stream, and the remainder is validated again."""
+        sc = sc or [self.pid]
+        lines = open(events_path).read().splitlines()
+        total_calls = sum(1 for l in lines if '"ev":"call"' in l)
+        rejected = 0
+        rnd = 0
+        while True:
+            rnd += 1
+            cur = os.path.join(self.wd, "events-cur.ndjson")
+            with open(cur, "w") as f:
+                f.write("\n".join(lines) + "\n")
+            res = vcheck.run_tlc(self.wd, "TV_Events", env={"VERIF_TRACE": cur, "TLC_JVM": "-Dtlc2.tool.queue.IStateQueue=StateDeque"},
+                                 workers=1, timeout=3600, subdir="tv", tag="TV_Events_%s_%d" % (os.path.basename(events_path).split(".")[0], rnd))
+            self.states += res["distinct"]
+            self.transitions += res["states"]
+            self.tlc_runs.append({"module": "TV_Events", "round": rnd, "events": len(lines), "distinct_states": res["distinct"], "states_generated": res["states"], "wall_s": round(res["wall_s"], 1)})
+            m = None
+            import re
+            m = re.search(r'<<"REJECTED", (\d+), "(\w+)">>', res["out"])
+            inv = re.search(r"Invariant (\w+) is violated", res["out"])
+            if "No error has been found" in res["out"] and not m:
+                break
+            if not m and not inv:
+                raise ToolError("TV_Events failed without a verdict:\n" + "\n".join(res["out"].splitlines()[-40:]))
+            if m:
+                idx = int(m.group(1)) - 1      # 0-based index of the first unmatched event
+                why = "event stream rejected by the machine at event %d (%s): %s" % (idx + 1, m.group(2), lines[idx][:200] if idx < len(lines) else "<end of stream>")
+            else:
+                # an invariant of the machine violated on the trace-driven state: locate via the l variable in the trace
+                ls = re.findall(r"/\\ l = (\d+)", res["out"])
+                idx = (int(ls[-1]) - 2) if ls else 0
+                why = "machine invariant %s violated while following the event stream (event %d)" % (inv.group(1), idx + 1)
+            idx = min(idx, len(lines) - 1)
+            start = idx
+            while start > 0 and '"ev":"call"' not in lines[start]:
+                start -= 1
+            end = start + 1
+            while end < len(lines) and '"ev":"call"' not in lines[end]:
+                end += 1
+            call = json.loads(lines[start])
+            rec = {"kind": "trace-rejected", "why": why, "sc": sc, "rule": aj_text(call.get("rule")), "data": aj_text(call.get("data")),
+                   "expected": "a behaviour of spec/Machine.tla explaining the recorded events", "actual": [l[:160] for l in lines[start:end]][:40],
+                   "profile": "debug", "case": {"rule": call.get("rule"), "data": call.get("data"), "exp": {"ok": False, "v": {"t": "z"}, "log": []}, "note": "event-stream violation; the in-process replay only re-runs the call"}}
+            self.verdicts.add(rec, source + "/events")
+            rejected += 1
+            del lines[start:end]
+            if rejected >= max_rejects or not lines:
+                log("  (stopped after %d rejected calls)" % rejected)
+                break
+        ok_calls = total_calls - rejected
+        self.validated += ok_calls
+        self.evaluations += total_calls
+        self.notes.setdefault("event_streams", []).append({"source": source, "calls": total_calls, "events": sum(1 for _ in open(events_path)), "accepted_calls": ok_calls, "rejected_calls": rejected})
+        log("  TV_Events %s: %d calls, %d accepted by the machine, %d rejected" % (source, total_calls, ok_calls, rejected))
+
+    def machine(self, fam, live=True, profiles=("debug", "release")):
+        """Model-check the small-step machine on a family, replay its terminal states, validate the hook events."""
+        cases = self.mc("MC_Machine", env={"VERIF_FAMILY": fam}, tag="MC_Machine_" + fam)
+        if live:
+            self.mc("MC_Machine", cfg="MC_Machine_live", env={"VERIF_FAMILY": fam}, tag="MC_Machine_live_" + fam, export=False)
+        ev = os.path.join(self.wd, "events-%s.ndjson" % fam)
+        self.replay(cases, profiles=profiles[:1], extra=["--events", ev], source="machine-" + fam)
+        if len(profiles) > 1:
+            self.replay(cases, profiles=profiles[1:], source="machine-" + fam)
+        self.validate_events(ev, "machine-" + fam)
 
     def coverage(self):
         cov = {
@@ -181,6 +275,7 @@ def plan_C13(ctx):
                 "initial values for reduce; values, Ok/Err and the exact log sequence are compared; one case per TLC state")
     cases = ctx.mc("MC_C13")
     ctx.replay(cases)
+    ctx.machine("C13")
     ctx.exhaustive = True
 
 
@@ -190,6 +285,7 @@ def plan_C14(ctx):
                 "log sequence (= which elements were evaluated) are compared; one case per TLC state")
     cases = ctx.mc("MC_C14")
     ctx.replay(cases)
+    ctx.machine("C14")
     ctx.exhaustive = True
 
 
@@ -211,7 +307,32 @@ def plan_C16(ctx):
     ctx.exhaustive = True
 
 
+def plan_C05(ctx):
+    ctx.rule = ("TLC model-checks the small-step machine on if / ?: / and / or x every operand list of length 0..5 over the alphabet {truthy log probe, falsy log probe "
+                "(distinct falsy value per position), eval-poison, parse-poison, positional data reference%s} and lengths 6%s over {probes, eval-poison}; each terminal state "
+                "is one replayed case with its exact log sequence; every call's hook-event stream (enter/log/ret) is validated by TLC against the machine; a case is "
+                "non-trivial when it is distinct (all lists are)" % (", truthy/falsy literals, nested and" if ctx.deep else "", "..7" if ctx.deep else ""))
+    ctx.machine("C05")
+    ctx.exhaustive = True
+
+
+def plan_C04(ctx):
+    ctx.rule = ("(i) TLC model-checks the small-step machine on 35 rules x 3 data whose fields hold rule-shaped markers ({\"var\":\"secret\"}, {\"log\":\"LEAK\"}, {\"+\":[\"x\"]}, "
+                "{\"if\":..}) reached through var hits, defaults, map/filter/reduce, computed collections of all/some/none, merge, if/and/or, cat/in/==; "
+                "(ii) the substitution law over 22 eager operators x all operand tuples of accepted length <= 3 from 14 operand expressions, both spellings exported; "
+                "(iii) every call's hook-event stream is validated by TLC against the machine (no evaluation of a non-rule term, no second evaluation)")
+    ctx.machine("C04")
+    cases = ctx.mc("MC_C04")
+    ev = os.path.join(ctx.wd, "events-subst.ndjson")
+    ctx.replay(cases, profiles=("debug",), extra=["--events", ev], source="substitution")
+    ctx.replay(cases, profiles=("release",), source="substitution")
+    ctx.validate_events(ev, "substitution")
+    ctx.exhaustive = True
+
+
 PLANS = {
+    "C04": plan_C04,
+    "C05": plan_C05,
     "C15": plan_C15,
     "C16": plan_C16,
     "C14": plan_C14,
